@@ -519,7 +519,7 @@ def run(run: Run):
     from . import c09
     run.rule('C19.R6', 'switching the check on takes effect on the next translation: the setter raises the flag on every path, the '
                        'guard re-translates when any flag is set (shared with C09.R1)')
-    borrow(run, 'C19.R6', c09.r1, src)
+    borrow(run, 'C19.R6', c09.r1_any, src)
     run.floor('C19.R6', 8)
     from .common import check_mutable_defaults
     run.rule('C19.R5', 'nothing collected for one workbook survives into the report of the next (no mutable default changed or handed out)')
